@@ -55,12 +55,17 @@ func envInt(name string, def int) int {
 	return def
 }
 
+// noCurrent lists pure-function properties for which crash attribution files are not written per case.
+var noCurrent = map[string]bool{"C01": true, "C02": true}
+
 // check runs a property: gen draws a scenario (outside any bubble), run executes it.
 func check[S any](t *testing.T, prop string, gen func(*rapid.T) S, run func(*testing.T, S) Result) {
 	col := evid.For(prop)
 	rapid.Check(t, func(rt *rapid.T) {
 		sc := gen(rt)
-		evid.WriteCurrent(prop, sc)
+		if !noCurrent[prop] {
+			evid.WriteCurrent(prop, sc)
+		}
 		res := run(t, sc)
 		col.Case(sc, res.NonTrivial, res.SigKey, res.Labels...)
 		if res.Verdict != "" {
